@@ -28,7 +28,7 @@
 (*   hist the behaviour so far with the predicted observations, emitted    *)
 (*        as JSON for replay against the implementation                    *)
 (***************************************************************************)
-EXTENDS Integers, Sequences, FiniteSets, TLC, Json, Rat, Outcome, PIDMath
+EXTENDS Integers, Sequences, FiniteSets, TLC, Json, Rat, Outcome, PIDMath, StreamShapes
 
 CONSTANTS Kinds,      \* subset of AllKinds explored by this run
           MaxLen,     \* number of events per behaviour
@@ -40,8 +40,8 @@ CONSTANTS Kinds,      \* subset of AllKinds explored by this run
 AllKinds == {"PID", "CmdPID", "EWMA", "EWMAQ", "MA", "MAQ", "Integral", "Derivative",
              "AccToState", "VelToState", "PosToState", "F2Q", "Q2F", "Freeze"}
 
-VARIABLES kind, par, st, tw, sk, now, run, last, lastIn, hist, n, dead
-vars == <<kind, par, st, tw, sk, now, run, last, lastIn, hist, n, dead>>
+VARIABLES kind, par, st, tw, sk, now, run, last, lastIn, hist, n, dead, sh
+vars == <<kind, par, st, tw, sk, now, run, last, lastIn, hist, n, dead, sh>>
 
 -----------------------------------------------------------------------------
 (* Units are pairs <<millimetre exponent, second exponent>>.               *)
@@ -292,11 +292,19 @@ Init ==
   /\ hist = <<>>
   /\ n = 0
   /\ dead = FALSE
+  /\ sh = InitShape(kind, IF kind = "CmdPID" THEN par.cmd.k ELSE 0)
 
 RunNext(k, s, ev, t) ==
   IF IsReset(k, s, ev) THEN <<>>
   ELSE IF ev.c = "some" THEN Append(run, [t |-> t, v |-> ev.v])
   ELSE run
+
+(* the event as the value-free abstraction StreamShapes sees it *)
+EvShape(k, s, ev) ==
+  IF k = "Freeze"
+  THEN [c |-> ev.in.c, e |-> IF ev.in.c = "err" THEN ev.in.e ELSE 0, cond |-> ev.cond.c, ce |-> IF ev.cond.c = "err" THEN ev.cond.e ELSE 0]
+  ELSE IF ev.c = "set" THEN [c |-> "set", e |-> 0, diff |-> [k |-> ev.k, v |-> ev.v] # s.cmd, k |-> ev.k]
+  ELSE [c |-> ev.c, e |-> IF ev.c = "err" THEN ev.e ELSE 0]
 
 Update(ev) ==
   LET t == IF HasTime(kind, ev) THEN now + EvDt(kind, ev) ELSE now
@@ -311,13 +319,14 @@ Update(ev) ==
   /\ UNCHANGED <<kind, par>>
   /\ IF Panics(kind, par, ev)
      THEN /\ dead' = TRUE
-          /\ UNCHANGED <<st, tw, sk, run>>
+          /\ UNCHANGED <<st, tw, sk, run, sh>>
           /\ hist' = IF Emit THEN Append(hist, [in |-> ev, t |-> t, ret |-> Panic]) ELSE hist
      ELSE /\ dead' = FALSE
           /\ st' = StepSt(kind, par, st, ev, t)
           /\ tw' = StepSt(kind, par, IF reset THEN FreshSt(kind, par, st) ELSE tw, ev, t)
           /\ sk' = IF IgnoresAbsent(kind) /\ ev.c = "none" THEN sk ELSE StepSt(kind, par, sk, ev, t)
           /\ run' = RunNext(kind, st, ev, t)
+          /\ sh' = ShapeStep(kind, sh, EvShape(kind, st, ev))
           /\ hist' = IF Emit
                      THEN Append(hist, [in |-> ev, t |-> t, ret |-> Ret(kind, ev), reset |-> reset,
                                         out |-> Obs(kind, st')])
@@ -447,7 +456,19 @@ EWMALaw ==
 (* C12: the f32 and the Quantity variant are the same machine (they share  *)
 (* one definition here; the replay drives both real variants with it).     *)
 
-AllLaws == /\ NoStaleError /\ FreezeLaw /\ ResetTwin /\ SkipAbsentTwin /\ OutTime
+(* The value-free abstraction of StreamShapes commutes with the machines: it predicts the category of *)
+(* the output, the cached error identity, the number of samples since the last reset and what update() returns. *)
+ShapeCommutes ==
+  ~dead =>
+     /\ sh.cat = Obs(kind, st).c
+     /\ (sh.cat = "err" => sh.e = Obs(kind, st).e)
+     /\ (kind \notin {"F2Q", "Q2F", "Freeze"} => sh.cnt = Cap3(Len(run)))
+     /\ (kind = "CmdPID" => sh.k = st.cmd.k)
+     /\ (n > 0 /\ last.c # "set" => ShapeRet(kind, EvShape(kind, st, last)) = Ret(kind, last))
+     /\ \A ev \in Alphabet(kind) : ShapeIsReset(kind, EvShape(kind, st, ev)) = IsReset(kind, st, ev)
+     /\ ShapeIgnoresAbsent(kind) = IgnoresAbsent(kind)
+
+AllLaws == /\ ShapeCommutes /\ NoStaleError /\ FreezeLaw /\ ResetTwin /\ SkipAbsentTwin /\ OutTime
            /\ PIDRef /\ PIDAbsent /\ IntegralRef /\ DerivativeRef /\ ToStateRef
            /\ CmdRef /\ CmdSetSame /\ MALaw /\ EWMALaw
 
